@@ -70,7 +70,10 @@ func (p *c02) Cases(tier string, emit func(interface{})) {
 					for u := 0; u <= 3; u++ {
 						for _, l := range []bool{false, true} {
 							for _, ds := range states {
-								put(c02Case{f, d, sc, u, l, ds, ds ^ 1})
+								// who states units is varied independently of who states the default
+								for _, us := range []int{ds ^ 1, ds, ds ^ 128, ds ^ 129, 0, 7} {
+									put(c02Case{f, d, sc, u, l, ds, us})
+								}
 							}
 						}
 					}
@@ -108,6 +111,14 @@ func (p *c02) Cases(tier string, emit func(interface{})) {
 		c := base
 		c.List = true
 		put(c)
+		// default and units stated by different parties (leaf vs. typedef levels), per number of uses
+		for u := 0; u <= 3; u++ {
+			for _, du := range [][2]int{{128, 1}, {1, 128}, {128, 0}, {0, 128}, {129, 2}, {2, 129}, {128, 4}, {4, 128}, {1, 2}, {2, 1}, {0, 1}, {1, 0}} {
+				for _, sc := range []string{"module", "grouping"} {
+					put(c02Case{f, 3, sc, u, false, du[0], du[1]})
+				}
+			}
+		}
 		// pairs of depth, scope, uses, who states default
 		for d := 1; d <= 3; d++ {
 			for _, sc := range c02Scopes {
